@@ -989,9 +989,18 @@ def run(res, tier):
         summ[cls] = {"formulas": f1, "windows": w, "virtual": v}
     a, b = summ[CLASSES[0]], summ[CLASSES[1]]
     R = "C10.3.sibling-agreement"
+    def _canon_formulas(fm_):
+        """the repetition functions as values for -1 .. 12 extra levels, whichever way they were read (branch-wise closed forms or constant folding)"""
+        if "byn" in fm_:
+            return {n_: tuple(int(x_) for x_ in v_) for n_, v_ in fm_["byn"].items()}
+        out_ = {}
+        for n_ in range(-1, 13):
+            t_ = fm_[n_] if n_ in (-1, 0) else fm_["else"]
+            out_[n_] = tuple(int(sympy.sympify(x_, locals={"p": P}).subs(P, 2 ** n_)) for x_ in t_)
+        return out_
     for part in ("formulas", "windows"):
         res.instance(R, part, "src/algorithms/periodic", "%s" % (a[part],))
-        if a[part] != b[part]:
+        if (_canon_formulas(a[part]) != _canon_formulas(b[part])) if part == "formulas" else (a[part] != b[part]):
             res.violation(R, "src/algorithms/periodic/tbfalgorithmperiodictoptreetsm.hpp", CLASSES[1], part, 1,
                           "%s of the target/source top tree (%s) differ from the single-tree top tree (%s)" % (part, b[part], a[part]))
     for key in sorted(set(a["virtual"]) | set(b["virtual"])):
